@@ -84,6 +84,9 @@ pub enum Schedule {
         /// percent: probability of continuing with the actor that ran last (coarser interleavings)
         #[serde(default)]
         sticky_pct: u32,
+        /// percent: relative eagerness of the command worker (0 = 100); small values let the queue lag behind the callers
+        #[serde(default)]
+        worker_pct: u32,
     },
     /// explicit list of (actor, site) steps; "env" steps carry the advance in `d`
     #[serde(rename = "list")]
@@ -188,6 +191,8 @@ pub struct StepRec {
     pub op: Op,
     pub ret: RetRec,
     pub ev: Vec<EvRec>,
+    /// [key id, estimate the sketch gives for that id's key right after the step] for the ids named in admission events
+    pub truth: Vec<Vec<i64>>,
     pub pc: BTreeMap<String, String>,
     pub s: StateRec,
     /// reset only
